@@ -607,6 +607,103 @@ func TestMutationDuringIteration(t *testing.T) {
 	evid.Exhaustive("write to a later position during for-in: via x offset x operator; rows", n)
 }
 
+// TestCollectionsOutliveTheirBlock: a list or map created under a block-local name and stored into an outer
+// container (or assigned to an outer variable, or aliasing an outer list) stays what it is after the block has
+// ended, whatever collections are created afterwards.
+func TestCollectionsOutliveTheirBlock(t *testing.T) {
+	i := func(v int64) *gen.Node { return gen.NInt(v) }
+	later := func() []*gen.Node {
+		return []*gen.Node{gen.NSet("z1", gen.NList(i(7), i(8), i(9))), gen.NSet("z2", gen.NList(i(70), i(80))), gen.NSet("z3", gen.NList(i(700))), gen.NSet("z4", gen.NMap(gen.NStr("z"), i(1))),
+			gen.NAssign("=", []*gen.Node{gen.NIndex(id("z1"), i(0))}, []*gen.Node{i(-1)}), gen.NAssign("=", []*gen.Node{gen.NIndex(id("z2"), i(0))}, []*gen.Node{i(-2)})}
+	}
+	blocks := []func(body []*gen.Node) *gen.Node{
+		func(b []*gen.Node) *gen.Node { return gen.NIf([]*gen.Node{gen.NBool(true)}, [][]*gen.Node{b}, nil, false) },
+		func(b []*gen.Node) *gen.Node { return gen.NIf([]*gen.Node{gen.NBool(false)}, [][]*gen.Node{{gen.NSet("u", i(0))}}, b, true) },
+		func(b []*gen.Node) *gen.Node { return gen.NForIn("it", gen.NList(i(0), i(1), i(2)), b) },
+		func(b []*gen.Node) *gen.Node {
+			return gen.NFor(gen.NSet("it", i(0)), gen.NBin("<", id("it"), i(3)), gen.NSet("it", gen.NBin("+", id("it"), i(1))), b)
+		},
+	}
+	bodies := []func() []*gen.Node{
+		// stored into a slot of an outer list
+		func() []*gen.Node {
+			return []*gen.Node{gen.NSet("loc", gen.NList(id("it2"), gen.NBin("*", id("it2"), i(10)), i(3))), gen.NAssign("=", []*gen.Node{gen.NIndex(id("out"), id("it2"))}, []*gen.Node{id("loc")}), gen.NSet("it2", gen.NBin("+", id("it2"), i(1)))}
+		},
+		// stored into a map slot, and the local is written to afterwards
+		func() []*gen.Node {
+			return []*gen.Node{gen.NSet("loc", gen.NList(i(1), i(2), i(3))), gen.NAssign("=", []*gen.Node{gen.NIndex(id("box"), gen.NStr("k"))}, []*gen.Node{id("loc")}), gen.NAssign("=", []*gen.Node{gen.NIndex(id("loc"), i(0))}, []*gen.Node{i(100)})}
+		},
+		// assigned to an existing outer variable
+		func() []*gen.Node {
+			return []*gen.Node{gen.NSet("loc", gen.NList(i(4), i(5))), gen.NSet("keep", id("loc")), gen.NSet("loc2", gen.NMap(gen.NStr("m"), gen.NList(i(6)))), gen.NSet("keepm", id("loc2"))}
+		},
+		// the local only aliases an outer list
+		func() []*gen.Node {
+			return []*gen.Node{gen.NSet("loc", id("outer")), gen.NAssign("=", []*gen.Node{gen.NIndex(id("loc"), i(1))}, []*gen.Node{i(55)})}
+		},
+	}
+	n := 0
+	for bi, blk := range blocks {
+		for wi, body := range bodies {
+			prog := []*gen.Node{gen.NSet("out", gen.NList(gen.NNil(), gen.NNil(), gen.NNil(), gen.NNil())), gen.NSet("box", gen.NMap()), gen.NSet("keep", gen.NNil()), gen.NSet("keepm", gen.NNil()), gen.NSet("outer", gen.NList(i(1), i(2), i(3))), gen.NSet("it2", i(0)),
+				blk(body())}
+			prog = append(prog, gen.NCall("probe", gen.NStr("right-after"), id("out"), id("box"), id("keep"), id("keepm"), id("outer")))
+			prog = append(prog, later()...)
+			prog = append(prog, gen.NCall("probe", gen.NStr("after-more-literals"), id("out"), id("box"), id("keep"), id("keepm"), id("outer"), id("z1"), id("z2")))
+			judge(t, "outlive", sem.NewCase(gen.FixAll(prog)), fmt.Sprintf("outlive/%d/%d", bi, wi), true, "collection-outlives-block")
+			n++
+		}
+	}
+	evid.Exhaustive("block kind x way the block-local collection stays reachable", n)
+}
+
+// TestNilBounds: a slice bound that evaluates to nil - the literal, a variable holding nil, a name that is not
+// defined, a missing key - is treated as omitted or is an error (open row), for every bound position and step sign.
+func TestNilBounds(t *testing.T) {
+	nils := []func() (pre []*gen.Node, b *gen.Node){
+		func() ([]*gen.Node, *gen.Node) { return nil, gen.NNil() },
+		func() ([]*gen.Node, *gen.Node) { return []*gen.Node{gen.NSet("nv", gen.NNil())}, id("nv") },
+		func() ([]*gen.Node, *gen.Node) { return nil, id("never_assigned") },
+		func() ([]*gen.Node, *gen.Node) { return nil, gen.NCall("get_key", gen.NStr("no_such_key")) },
+	}
+	subj := []any{[]any{int64(1), int64(2), int64(3), int64(4), int64(5)}, "hello", []any{}, ""}
+	ints := []*gen.Node{nil, gen.NInt(0), gen.NInt(2), gen.NInt(-1), gen.NInt(-2), gen.NInt(1)}
+	n := 0
+	for ni, mk := range nils {
+		for si, sv := range subj {
+			for pos := 0; pos < 7; pos++ { // bit0: start is nil, bit1: end is nil, bit2: step is nil
+				p := pos + 1
+				for oi, other := range ints {
+					if (ni+si+p+oi)%evid.NShards() != evid.Shard() {
+						continue
+					}
+					var pre []*gen.Node
+					bound := func(isNil bool) *gen.Node {
+						if isNil {
+							q, b := mk()
+							pre = append(pre, q...)
+							return b
+						}
+						if other == nil {
+							return nil
+						}
+						return other.Clone()
+					}
+					lo, hi, st := bound(p&1 != 0), bound(p&2 != 0), bound(p&4 != 0)
+					if st != nil && st.Kind == gen.Int && st.I == 0 {
+						st = gen.NInt(1)
+					}
+					prog := append([]*gen.Node{gen.NSet("x", sgen.Lit(sv))}, pre...)
+					prog = append(prog, gen.NCall("probe", gen.NStr("r"), gen.NSlice(id("x"), lo, hi, st, st != nil || oi%2 == 0)), gen.NCall("probe", gen.NStr("len"), gen.NCall("len", gen.NSlice(id("x"), lo, hi, st, st != nil))))
+					judge(t, "nil-bounds", sem.NewCase(gen.FixAll(gen.CloneProg(prog))), fmt.Sprintf("nilbound/%d/%d/%d/%d", ni, si, p, oi), true, "nil-valued-bound")
+					n++
+				}
+			}
+		}
+	}
+	evid.Exhaustive("nil delivery x subject x nil positions x other bounds", n)
+}
+
 func TestReplays(t *testing.T) {
 	files, _ := filepath.Glob(filepath.Join(evid.Dir(), "replays", prop, "*.json"))
 	if r := os.Getenv("VERIF_REPLAY"); r != "" {
